@@ -42,7 +42,13 @@ func init() {
 		if c == nil {
 			return "bad-op"
 		}
-		return c.check(r, strings.Join(f, " "))
+		res := c.check(r, strings.Join(f, " "))
+		if f[0] == "incl" {
+			// the Lean driver does not know the `incl` op yet and answers bad-op; the verdict of
+			// replaying such a line is the oracles' alone
+			return "bad-op"
+		}
+		return res
 	}
 }
 
@@ -423,7 +429,12 @@ func resKind(res string) string {
 // check runs the case on the real engine, applies the oracles and returns the real result.
 func (c *inclCase) check(r *Run, caseLine string) string {
 	d := c.materialise()
-	defer os.RemoveAll(d)
+	defer func() {
+		os.RemoveAll(d)
+		if os.Getenv("VERIF_WORK") == "" {
+			os.Remove(workDir()) // the private scratch directory, when nothing else is in it
+		}
+	}()
 	real := c.renderOn(c.engine(d), d, c.Src, RealiseEnv(c.Env))
 	if real == "panic" {
 		// a panic inside a filter or comparison of a fragment is C01's matter; it is a C14
@@ -796,11 +807,6 @@ func genInclCase(g *RNG, r *Run) *inclCase {
 }
 
 func inclStream(r *Run) {
-	defer func() {
-		if os.Getenv("VERIF_WORK") == "" {
-			os.Remove(workDir()) // the private scratch directory, if nothing else is in it
-		}
-	}()
 	for _, cl := range corpusLines("incl") {
 		if f := strings.Fields(cl); r.Mine() {
 			if c := parseInclLine(f); c != nil {
